@@ -6,9 +6,7 @@
 use crate::core::ser::SerializationMode;
 use crate::core::verif_kani_support::{KReader, KWriter};
 
-fn stub_format(_args: core::fmt::Arguments<'_>) -> String {
-	String::new()
-}
+use crate::core::verif_kani_support::stub_format;
 
 /// All 19-byte strings (family tag + 16 address bytes + port): whatever PeerAddr::read accepts
 /// must re-encode to the bytes it consumed.
